@@ -643,10 +643,14 @@ class C05(Prop):
               "target the operator's wires bound, the ket's and the conjugate copy's open; glued pairs (ket open, operator input) / (operator output, "
               "conjugate open) at every other node; rows = conjugate-side legs, columns = ket-side legs, both in the leg order of the updated tensor "
               "= E^dagger H E as a diagram.  The blocks of the model are the FRESH ones (freshness of the real cache: clause cache_fresh above + value tie)"),
-        ("I", "per sampled SITE call (about 3 per case): the state and the TTNO are rebuilt as store programmes from their current structure; all build "
-              "operations accepted; wf_heffb (hypothesis of C05_heff_site_checked) and heff_ok (C05_heff_ok_sound) by vm_compute.  Per sampled LINK "
-              "call: link_ok (C05_link_ok_sound: both sides of the edge complete, operator wire of the edge bound, axes = conjugate copies of the "
-              "link tensor's legs then the link tensor's legs) by vm_compute — no universal theorem for the link Hamiltonian"),
+        ("F", "LINK updates, diagram level (C05_heff_link_diagram / C05_heff_link_checked): the state holds the link node between a and b (not the "
+              "root, one child, two legs, no open leg), the TTNO does not (heterogeneous neighbour lists at a and b, wf_link); for every tree, every edge "
+              "and independent neighbour orders _get_effective_link_hamiltonian built from fresh blocks is the complete network of both sides of the "
+              "edge, the operator wire of the edge bound, rows = conjugate copies of the link tensor's legs, columns = the link tensor's legs, in the "
+              "link tensor's own leg order (parent side first), whichever end is the parent"),
+        ("I", "per sampled SITE call (about 3 per case) and LINK call (1-2 per case): the state and the TTNO are rebuilt as store programmes from "
+              "their current structure; all build operations accepted; hypothesis checkers wf_heffb / wf_linkb (C05_heff_site_checked, "
+              "C05_heff_link_checked) and, as a cross-check, result checkers heff_ok / link_ok (C05_heff_ok_sound, C05_link_ok_sound) by vm_compute"),
         ("V", "value tie of the diagram level: einsum of the model diagram (fresh blocks) on the captured tensors equals the matrix handed to "
               "time_evolve, 1e-9 relative, for the sampled site and link calls (detects stale cache blocks, wrong leg permutations, swapped sides)"),
         ("V", "H_eff handed to time_evolve equals E^dagger H E (dense operator, embedding by differentiating the current dense state): "
